@@ -13,7 +13,7 @@ Every pipeline starts with a hidden stage 0, `mapPartitionsWithIndex(tagger)`, t
 wrapped: the wrapper appends (stage, partition, k, value) to LOG, where k is the number of earlier calls of
 that stage function on elements of that partition (= the index of the element in that stage's input when each
 element is evaluated once, in order).  impl returns
-    (len(LOG) after the definitions, LOG after the action, canonical result of the action, partitioning)
+    ([len(LOG) after each definition step], LOG after the action, canonical result of the action, partitioning)
 and the Gallina model (coq/Model/Lazy.v via coq/Run/C06_run.v) must predict exactly that tuple."""
 import os
 import shutil
@@ -100,9 +100,11 @@ def build(R, ctx, src, stages):
             R.rec(0, i, v)
             yield E(v, i)
     rdd = rdd.mapPartitionsWithIndex(tagger)
+    seen = [len(R.log)]
     for s, (k, c, flag) in enumerate(stages, 1):
         rdd = define_stage(R, rdd, s, k, c, flag)
-    return rdd
+        seen.append(len(R.log))
+    return rdd, seen
 
 
 def define_stage(R, rdd, s, k, c, flag):
@@ -254,8 +256,7 @@ def impl(case):
     parts = partitioning(src)
     R = Rec()
     ctx = pysparkling.Context()
-    rdd = build(R, ctx, src, stages)
-    ndef = len(R.log)
+    rdd, ndef = build(R, ctx, src, stages)
     try:
         res = run_action(R, rdd, len(stages) + 1, action)
     except Exception as e:  # pylint: disable=broad-except
@@ -298,8 +299,11 @@ def oracle(case, result):
         return None
     ndef, log, res, parts = result
     aname = ACTIONS[action[0]]
-    if ndef != 0:
-        return (f'define:{_first_kind(stages, log)}:user-function-called', f'{ndef} calls logged before any action: {log[:3]}')
+    if any(ndef):
+        step = next(i for i, c in enumerate(ndef) if c)
+        what = KIND_NAMES[stages[step - 1][0]] if step else 'source'
+        return (f'define:{what}:user-function-called',
+                f'{ndef[step]} calls logged while defining step {step} ({what}): {log[:3]}')
     inputs = stage_inputs(parts, stages)
     nst = len(stages)
     if action[0] in SINGLE_PASS:
@@ -370,11 +374,6 @@ def oracle(case, result):
 def _event_partition(e):
     s, p, j, _v = e
     return p if p >= 0 else j
-
-
-def _first_kind(stages, log):
-    s = log[0][0] if log else 0
-    return KIND_NAMES[stages[s - 1][0]] if 1 <= s <= len(stages) else 'source'
 
 
 def nontrivial(case, result):
